@@ -37,14 +37,32 @@ RECURSIVE ExprOfIndex(_, _)
 ExprOfIndex(i, l) == IF i < Pow(NE, l) THEN NthE(l, i) ELSE ExprOfIndex(i - Pow(NE, l), l + 1)
 NExprs == Pow(NE, 1) + Pow(NE, 2) + Pow(NE, 3) + Pow(NE, 4)
 
+\* part "chars" (len = 8): strings of CHARACTERS, written without separators, so that every adjacency of
+\* bytes the tokenizer distinguishes occurs: letters, digits, the hex and exponent letters, every byte that
+\* starts a multi-byte token, quotes and escapes, each kind of white space, a byte no token starts with
+CharAlpha == << "a", "1", "0", "x", "e", "-", ">", "<", "/", "*", "\"", "\\", ".", " ", "\n", "\r", "\t", ";", "[", "_", "i", "@BYTE255" >>
+NC == Len(CharAlpha)
+MaxChars == IF Tier = "thorough" THEN 5 ELSE 4
+RECURSIVE NthC(_, _)
+NthC(l, i) == IF l = 0 THEN <<>> ELSE <<CharAlpha[(i % NC) + 1]>> \o NthC(l - 1, i \div NC)
+RECURSIVE CharsOfIndex(_, _)
+CharsOfIndex(i, l) == IF i < Pow(NC, l) THEN NthC(l, i) ELSE CharsOfIndex(i - Pow(NC, l), l + 1)
+RECURSIVE NCharsUpTo(_)
+NCharsUpTo(l) == IF l = 0 THEN 0 ELSE Pow(NC, l) + NCharsUpTo(l - 1)
+\* the longest length is sampled: a Seed-dependent residue class
+CharStride == IF Tier = "thorough" THEN 40 ELSE 8
+CharIdx == {i \in 1..NCharsUpTo(MaxChars) : i <= NCharsUpTo(MaxChars - 1) \/ (i + Seed) % CharStride = 0}
+
 Init == len = 0 /\ idx = 0
 \* thorough (4 tokens, 6.8 M strings) is sampled: a Seed-dependent residue class of the indices
 Stride == IF MaxTok = 4 THEN 23 ELSE 1
-Next == \/ len = 0 /\ len' \in (1..MaxTok) \cup {9} /\ idx' = 0
+Next == \/ len = 0 /\ len' \in (1..MaxTok) \cup {8, 9} /\ idx' = 0
+        \/ len = 8 /\ idx = 0 /\ idx' \in CharIdx /\ UNCHANGED len
         \/ len \in 1..4 /\ idx = 0 /\ idx' \in {i \in 1..Pow(N, len) : len < 4 \/ (i + Seed) % Stride = 0} /\ UNCHANGED len
         \/ len = 9 /\ idx = 0 /\ idx' \in 1..NExprs /\ UNCHANGED len
 IsCase == idx > 0
 Export == IsCase =>
    IF len = 9 THEN PrintT("@@ECASE " \o ToJson([expr |-> ExprOfIndex(idx - 1, 1)]))
+   ELSE IF len = 8 THEN PrintT("@@CCASE " \o ToJson([chars |-> CharsOfIndex(idx - 1, 1)]))
    ELSE PrintT("@@TCASE " \o ToJson([toks |-> Nth(len, idx - 1)]))
 =============================================================================
